@@ -95,7 +95,8 @@ PROPS["C04"] = [
     H("comparison", "c04_ops_" + k, funcs=["query::comparison::Comparison::process", "query::comparable::Literal::process", "query::comparable::SingularQuery::process"] + _C04_FUNCS,
       symbolic=sym, shape="all six operators, literal <op> @", est=40)
     for k, sym in (("int_int", "literal int in I-JSON, node any i64"), ("float_int", "literal finite float, node I-JSON int"),
-                   ("int_float", "literal I-JSON int, node finite float"), ("cross", "literal int, node bool"))
+                   ("int_float", "literal I-JSON int, node finite float"), ("cross", "literal int, node bool"),
+                   ("str_str", "literal and node: one ASCII byte each"))
 ] + [
     H("comparison", "c04_str_str", tiers="t", funcs=_C04_FUNCS, symbolic="two strings of <= 2 arbitrary Unicode scalars each",
       shape="string x string", est=500, timeout=3300),
@@ -236,7 +237,6 @@ PROPS["C03"] = [
     H("selector", "c03_key_path_plain", funcs=_C03F, symbolic="one printable ASCII byte other than ' and \\", shape="Pointer::key on path $", est=15),
     H("selector", "c03_roleb_key_path_escaped", funcs=_C03F, role="B", symbolic="one byte in {' \\ LF TAB}", shape="Pointer::key on path $", est=15),
     H("selector", "c03_index_route_len3", funcs=_C03F + ["query::selector::process_index"], symbolic="i in -4..3", shape="array of 3", est=25),
-    H("selector", "c03_slice_route", tiers="t", exclusive=True, funcs=_C03F + ["query::selector::process_slice"], symbolic="start absent or 0..2, end absent, step in {-1,-2}", shape="array of 3", est=2000, timeout=3000),
     H("selector", "c03_slice_route_fixed", tiers="t", timeout=3000, exclusive=True, funcs=_C03F + ["query::selector::process_slice"], symbolic="element payloads only (slice parameters concrete: [::-2], [1::-1])", shape="array of 3", est=60),
     H("filter", "c03_filter_route_dup", tiers="t", exclusive=True, funcs=_C03F + ["query::filter::Filter::process"], symbolic="element value x (both elements equal), I-JSON",
       shape="[x, x], filter @ == x, real fmt", est=600, timeout=3300),
